@@ -402,6 +402,7 @@ pub fn c16_case(data: &[u8]) -> c16::Case {
         probe2_id: if d.pick(4) == 0 { d.u8() } else { d.range(0, 7) as u8 },
         probe2_len: d.u16(),
         probe2_cuts: d.vec(1, 3, |d| d.range(1, 99) as u16),
+        probe2_ext: d.bool(),
     }
 }
 
@@ -611,6 +612,7 @@ pub fn c13_case(data: &[u8]) -> c13::Case {
         storage_extra: if d.pick(3) == 0 { d.range(1, 499) as u16 } else { 0 },
         mgr_mask: match d.pick(6) { 0..=2 => u32::MAX, 3 | 4 => d.u32(), _ => 0 },
         prime_same_label: d.pick(3) == 0,
+        follow_up: match d.pick(4) { 0 => 1, 1 => 2, _ => 0 },
     }
 }
 
